@@ -85,7 +85,7 @@ func deepCopyAny(v any) any {
 	return v
 }
 
-var mutationKinds = []string{"delete", "retype", "rename", "duplicate", "repoint", "nil", "extreme", "rekey"}
+var mutationKinds = []string{"delete", "retype", "rename", "duplicate", "repoint", "nil", "extreme", "rekey", "swaptype"}
 
 // applyMutation mutates node i of the tree with the given kind; variant selects among alternatives.
 func applyMutation(tree any, nodeIdx int, kind string, variant int) (desc string, ok bool) {
@@ -95,6 +95,41 @@ func applyMutation(tree any, nodeIdx int, kind string, variant int) (desc string
 		return "", false
 	}
 	n := nodes[nodeIdx%len(nodes)]
+	if kind == "swaptype" {
+		// type confusion: a complete, well-formed description of ANOTHER type where some type stands (a list as map
+		// key, an object where an item type is expected ...); applies to type nodes only
+		var typeNodes []*node
+		for _, c := range nodes {
+			if m, ok := c.get().(map[any]any); ok {
+				if _, has := m["type_id"]; has {
+					typeNodes = append(typeNodes, c)
+				}
+			}
+		}
+		if len(typeNodes) == 0 {
+			return "", false
+		}
+		n = typeNodes[nodeIdx%len(typeNodes)]
+		str := map[any]any{"type_id": "string"}
+		palette := []any{
+			map[any]any{"type_id": "list", "items": deepCopyAny(str)},
+			map[any]any{"type_id": "map", "keys": deepCopyAny(str), "values": map[any]any{"type_id": "integer"}},
+			map[any]any{"type_id": "bool"},
+			map[any]any{"type_id": "float"},
+			map[any]any{"type_id": "any"},
+			map[any]any{"type_id": "pattern"},
+			map[any]any{"type_id": "ref", "id": "NoSuchObject"},
+			map[any]any{"type_id": "object", "id": "Inline", "properties": map[any]any{"p": map[any]any{"type": deepCopyAny(str)}}},
+			map[any]any{"type_id": "scope", "root": "In", "objects": map[any]any{"In": map[any]any{"id": "In", "properties": map[any]any{}}}},
+			map[any]any{"type_id": "enum_string", "values": map[any]any{"a": map[any]any{}}},
+			map[any]any{"type_id": "enum_integer", "values": map[any]any{int64(1): map[any]any{}}},
+			map[any]any{"type_id": "one_of_string", "discriminator_field_name": "_type", "types": map[any]any{}},
+			map[any]any{"type_id": "integer", "min": int64(5), "max": int64(1)},
+			map[any]any{"type_id": "string", "min": int64(9), "max": int64(2)},
+		}
+		n.set(deepCopyAny(palette[variant%len(palette)]))
+		return fmt.Sprintf("%s@%s", kind, n.path), true
+	}
 	cur := n.get()
 	switch kind {
 	case "delete":
